@@ -362,8 +362,18 @@ def _coop_start(self):
     self.daemon = True
     s.real_threads.append(self)
     _RealThread.start(self)
-    if s.me() is not None:
-        s.point(("thread-start", tid))
+    me = s.me()
+    if me is not None and not s.aborting:
+        # eager start: the new thread runs first, up to its first blocking operation, at no cost
+        # (the library's helper threads do nothing before their first Event.wait; without this a
+        # schedule would have to spend one preemption just to let the helper reach that wait)
+        if s.trace is not None:
+            s.trace.append((me, ("thread-start", tid)))
+        s.current = tid
+        s.sems[tid].release()
+        s.sems[me].acquire()
+        if s.aborting:
+            raise Abort()
 
 
 def _coop_join(self, timeout=None):
